@@ -542,6 +542,8 @@ func (rt *runtimeS) step(st Step) {
 		rt.calls[st.C].sendQ <- cop{"send", st.Pay}
 	case "close":
 		rt.calls[st.C].sendQ <- cop{"close", ""}
+	case "sendbad":
+		rt.calls[st.C].sendQ <- cop{"sendbad", ""}
 	case "recv", "hdr", "trl":
 		n := st.N
 		if n == 0 {
